@@ -33,10 +33,52 @@ def main():
     except common.InfraError as e:
         print("INFRASTRUCTURE ERROR:", e)
         return 2
-    except Exception:  # a bug in the harness is not a verdict
+    except Exception as exc:  # a bug in the harness is not a verdict ...
         traceback.print_exc()
+        # ... unless it is the implementation's behaviour that the harness could not digest: if the same check runs through on
+        # the committed state of the repository (HEAD, in a scratch worktree), the exception is caused by the working-tree
+        # change, and a correspondence that cannot even be evaluated no longer checks.
+        if not a.replay and os.environ.get("VERIF_NO_FALLBACK") != "1" and pristine_passes(pid, a.tier):
+            os.makedirs(common.REPLAYS, exist_ok=True)
+            rp = os.path.join(common.REPLAYS, "%s_%d.json" % (pid, seed))
+            import json
+            with open(rp, "w") as f:
+                json.dump({"property": pid, "seed": seed, "tier": a.tier,
+                           "no_longer_checks": ["the harness could not evaluate the implementation's behaviour (it can on the committed HEAD): "
+                                                + "".join(traceback.format_exception_only(type(exc), exc)).strip()[:400]],
+                           "traceback": traceback.format_exc()[-2000:]}, f, indent=1)
+            try:
+                if run.proof is None:
+                    run.proof = common.proof_status(pid)
+                run.rule = run.rule or "the run stopped before the cases were evaluated"
+                common.write_evidence(run, 1, ["the harness could not evaluate the implementation's behaviour"])
+            except Exception:  # noqa
+                pass
+            print("VIOLATION property=%s replay=%s no-failing-input-found" % (pid, rp))
+            return 1
         print("INFRASTRUCTURE ERROR: harness exception")
         return 2
+
+
+def pristine_passes(pid, tier):
+    """does this check run through (exit 0) against the committed HEAD of the repository?"""
+    import shutil
+    import subprocess
+    import tempfile
+    repo = common.REPO
+    d = tempfile.mkdtemp(prefix="cmv_pristine_")
+    wt = os.path.join(d, "repo")
+    try:
+        if subprocess.run(["git", "-C", repo, "worktree", "add", "--detach", "-q", wt, "HEAD"], stdout=subprocess.DEVNULL, stderr=subprocess.DEVNULL).returncode != 0:
+            return False
+        env = dict(os.environ, CM_REPO=wt, VERIF_NO_FALLBACK="1")
+        r = subprocess.run([sys.executable, os.path.abspath(__file__), pid, "--tier", tier], env=env, stdout=subprocess.DEVNULL, stderr=subprocess.DEVNULL, timeout=7200)
+        return r.returncode == 0
+    except Exception:  # noqa
+        return False
+    finally:
+        subprocess.run(["git", "-C", repo, "worktree", "remove", "--force", wt], stdout=subprocess.DEVNULL, stderr=subprocess.DEVNULL)
+        shutil.rmtree(d, ignore_errors=True)
 
 
 if __name__ == "__main__":
